@@ -50,6 +50,35 @@ theorem unpaired_client_rejected (ci cr : Mailbox.Noise.Cfg) (rsI rsR : Mailbox.
     Lnc.Props.C03.failed (Mailbox.Noise.run Mailbox.Noise.kkPattern ci cr Mailbox.Noise.noMitm).2 = true :=
   (Lnc.Props.C03.kk_wrong_expected ci cr rsI rsR hci hcr hmis).2.1
 
+/-- The full statement of the rendezvous clause: after any first connection in
+    which the *client* stored the server's key, the two parties derive the same
+    rendezvous. -/
+def C11_rendezvous_statement : Prop :=
+  ∀ (ks kc : Nat) (e : Bytes) (evs : List Ev) (st : St),
+    run (init ks kc e) evs = some st → st.cli.remote.isSome = true → st.srv.sid st.entropy = st.cli.sid st.entropy
+
+/-- **it is false of the protocol as it stands** (known finding
+    `C11/half-paired-after-lost-act3`): the pairing handshake is not atomic. When
+    its last message is lost the client has stored the server's key and moves to
+    the key-derived rendezvous, the server has not and stays at the passphrase
+    rendezvous; the two never meet again. -/
+theorem C11_half_paired_counterexample : ¬ C11_rendezvous_statement := by
+  intro h
+  have := h 1 2 [7] [.acceptRet, .dialRet, .handshakeClientOnly, .closedC, .closedS] _ rfl rfl
+  revert this
+  decide
+
+/-- for every pair of keys: after a client-only completion the rendezvous differ -/
+theorem half_paired_never_meets (st st' : St) (h : step st .handshakeClientOnly = some st') (hs : st.srv.remote = none) :
+    st'.srv.sid st'.entropy ≠ st'.cli.sid st'.entropy := by
+  simp only [step] at h
+  split at h
+  · simp only [Option.some.injEq] at h
+    subst h
+    simp only [Side.sid, hs]
+    exact fun he => Lnc.Props.C17.paired_sid_ne_passphrase_sid _ _ _ _ _ he.symm
+  · cases h
+
 /-! non-vacuity -/
 example : ((run (init 3 1 [7]) [.acceptRet, .dialRet, .handshakeV2, .transfer, .closedC, .closedS, .dialRet, .acceptRet, .transfer]).map
     fun st => (st.srv.handed, st.cli.handed, st.srv.remote, st.cli.remote)) = some (2, 2, some 1, some 3) := by decide
